@@ -1,6 +1,7 @@
 package main
 
 import (
+	"sync"
 	"fmt"
 	"go/constant"
 	"go/token"
@@ -194,6 +195,9 @@ type TupleV struct{ vs []Value }
 type OpaqueV struct{ what string } // non-nil opaque (errors etc.)
 
 // ---------- machine ----------
+// prodFactors: product-abstraction symbol -> its two factor symbols (the slicer keeps the factors' definitions alive)
+var prodFactors sync.Map
+
 type Obligation struct {
 	pc      []*Cond
 	defs    []*Cond
@@ -236,6 +240,7 @@ type Machine struct {
 	oblSeen   map[string]bool
 	effects   []string
 	effectsOn bool
+	approxBits bool
 	concrete  []string // concrete mode: values of the nondet symbols in creation order
 	concPos   int
 	concAsserts map[string]string
@@ -515,8 +520,8 @@ func ptrExtend(p Ptr, pe PathElem) Ptr {
 
 // ---------- ints ----------
 func (m *Machine) rangeObl(l *Lin, t types.Type, what string, pos token.Pos) {
-	if l.isConst() {
-		return
+	if l.isConst() || m.approxBits {
+		return // effect harnesses approximate values: arithmetic claims belong to the functional harnesses (C01, C02)
 	}
 	w, signed, ok := intInfo(t)
 	if !ok {
@@ -599,6 +604,7 @@ func (m *Machine) linMul(a, b *Lin) *Lin {
 			if !ok {
 				ps = "M_" + x + "_" + y
 				m.prods[key] = ps
+				prodFactors.Store(ps, [2]string{x, y})
 				// interval axiom
 				cands := []*big.Int{new(big.Int).Mul(ba[0], bb[0]), new(big.Int).Mul(ba[0], bb[1]), new(big.Int).Mul(ba[1], bb[0]), new(big.Int).Mul(ba[1], bb[1])}
 				lo, hi := cands[0], cands[0]
@@ -724,6 +730,17 @@ func (m *Machine) binop(op token.Token, x, y Value, t types.Type, xt types.Type,
 	}
 	panic(fmt.Sprintf("binop %s on %T", op, x))
 }
+// approxInt: over-approximation of an integer operation the integer encoding cannot express exactly - an arbitrary
+// value of the result type. Only enabled for effect harnesses (approx_bitops), where values matter only through branches.
+func (m *Machine) approxInt(t types.Type) Value {
+	w, signed, ok := intInfo(t)
+	if !ok {
+		w, signed = 64, true
+	}
+	m.stats["approx_bitops"]++
+	return m.nondet("apx", w, signed, nil, nil)
+}
+
 func (m *Machine) cxor(a, b *Cond) *Cond {
 	return cNot(cAnd(cNot(cAnd(a, cNot(b))), cNot(cAnd(cNot(a), b))))
 }
@@ -739,11 +756,17 @@ func (m *Machine) binopInt(op token.Token, a, b *Lin, t types.Type, pos token.Po
 		r = m.linMul(a, b)
 	case token.SHL:
 		if !b.isConst() {
+			if m.approxBits {
+				return m.approxInt(t)
+			}
 			panic("int mode: symbolic shift")
 		}
 		r = a.scale(new(big.Int).Lsh(big.NewInt(1), uint(b.c.Int64())))
 	case token.SHR:
 		if !b.isConst() {
+			if m.approxBits {
+				return m.approxInt(t)
+			}
 			panic("int mode: symbolic shift")
 		}
 		k := new(big.Int).Lsh(big.NewInt(1), uint(b.c.Int64()))
@@ -758,6 +781,9 @@ func (m *Machine) binopInt(op token.Token, a, b *Lin, t types.Type, pos token.Po
 			a, b = b, a
 		}
 		if !b.isConst() {
+			if m.approxBits {
+				return m.approxInt(t)
+			}
 			panic("int mode: AND of two symbolic operands")
 		}
 		if a.isConst() {
@@ -782,6 +808,9 @@ func (m *Machine) binopInt(op token.Token, a, b *Lin, t types.Type, pos token.Po
 			return VInt{lin: a.add(m.andConst(a, b.c, t), -1)}
 		}
 		if !a.isConst() || !b.isConst() {
+			if m.approxBits {
+				return m.approxInt(t)
+			}
 			panic("int mode: symbolic " + op.String())
 		}
 		w, _, _ := intInfo(t)
@@ -798,7 +827,20 @@ func (m *Machine) binopInt(op token.Token, a, b *Lin, t types.Type, pos token.Po
 		}
 		return VInt{lin: linConst(rr)}
 	case token.QUO, token.REM:
+		if !a.isConst() && b.isConst() && b.c.Sign() > 0 {
+			// symbolic dividend, constant positive divisor: Go truncates towards zero, the memoised pair is Euclidean;
+			// they coincide for dividends >= 0, which is an obligation
+			m.oblige(cCmp("<=", linConstI(0), a), "division: dividend of a constant divisor is non-negative (truncated = Euclidean)", m.prog.Fset.Position(pos).String())
+			q, r0 := m.divmod(a, b.c)
+			if op == token.QUO {
+				return VInt{lin: q}
+			}
+			return VInt{lin: r0}
+		}
 		if !a.isConst() || !b.isConst() {
+			if m.approxBits {
+				return m.approxInt(t)
+			}
 			panic("int mode: symbolic division")
 		}
 		q, r0 := new(big.Int).QuoRem(a.c, b.c, new(big.Int))
@@ -842,6 +884,9 @@ func (m *Machine) binopInt(op token.Token, a, b *Lin, t types.Type, pos token.Po
 		}
 		k := tz(hiop)
 		if k == 0 || k >= 1<<20 {
+			if m.approxBits {
+				return m.approxInt(t)
+			}
 			panic("int mode: OR of operands not provably disjoint")
 		}
 		lim := new(big.Int).Lsh(big.NewInt(1), k)
@@ -861,7 +906,10 @@ func (m *Machine) binopInt(op token.Token, a, b *Lin, t types.Type, pos token.Po
 	case token.GEQ:
 		return VBool{cCmp("<=", b, a)}
 	default:
-		panic("int mode: unsupported op " + op.String())
+		if m.approxBits {
+				return m.approxInt(t)
+			}
+			panic("int mode: unsupported op " + op.String())
 	}
 	// unsigned arithmetic wraps by definition (mod 2^w); signed overflow is an obligation
 	if w, signed, ok := intInfo(t); ok && !signed {
